@@ -35,7 +35,7 @@ def fmt(ent):
     return '/'.join(dirs + ['_'.join(name)])
 
 
-def make_case(rng, bits):
+def make_case(rng, bits, noise=None):
     ent = {k: None for k in ENTS}
     ent['sub'] = label(rng)
     for k, b in zip(OPT, bits):
@@ -49,10 +49,12 @@ def make_case(rng, bits):
             'pattern': sum(b << i for i, b in enumerate(bits)),
             'desc': label(rng), 'suffix': rng.choice(SUFFIXES)}
     r = rng.random()
-    if r < 0.08:
+    if noise is None:
+        noise = 'dot' if r < 0.08 else 'slash' if r < 0.16 else ''
+    if noise == 'dot':
         case['path'] = './' + path
         case['noise'] = 'dot'
-    elif r < 0.16:
+    elif noise == 'slash':
         case['path'] = path.replace('/', '//', 1)
         case['noise'] = 'slash'
     return case
@@ -69,6 +71,9 @@ MALFORMED = [
 
 def gen(rng, tier):
     reps = 4 if tier == 'quick' else 300
+    # directed skeleton: every branch tag is reached whatever the PRNG draws
+    yield make_case(rng, (1, 1, 1, 1, 1, 1), noise='dot')
+    yield make_case(rng, (0, 1, 0, 1, 0, 0), noise='slash')
     for _ in range(reps):
         for bits in itertools.product([0, 1], repeat=6):
             yield make_case(rng, bits)
